@@ -661,8 +661,12 @@ class Run:
         P = [r for r in real if r["cls"] == "P"]
         B = [r for r in real if r["cls"] == "B"]
 
+        nknown = len(known_hits)
+
         def count(rs):
-            n = sum(len(r["props"]) for r in rs)
+            # obligations recorded in known_findings.txt are reported separately, not as obligations to discharge
+            kn = sum(1 for r in rs for f in r["failed"] if any(f is kf for _, kf in known_hits))
+            n = sum(len(r["props"]) for r in rs) - kn
             ok = sum(1 for r in rs for p in r["props"] if p["status"] == "SUCCESS" and r["status"] in ("ok", "failed"))
             return n, ok
         nP, okP = count(P)
@@ -697,7 +701,8 @@ class Run:
                 "assumed_contracts_or_stubs": assumed,
                 "functions_without_body_treated_as_nondet_return_no_side_effect": nobody,
                 "undecided_jobs": [{"job": r["job"], "reason": r["reason"][:300]} for r in undecided],
-                "known_findings_seen": [k["key"] for k, _ in known_hits],
+                "known_finding_obligations_failed_as_recorded": nknown,
+                "known_findings_seen": sorted(set(f["key"] for _, f in known_hits)),
                 "covers": [{"job": r["job"], **c} for r in real for c in r.get("covers", [])][:400],
                 "samples": samples,
                 "exhaustive": False,
